@@ -36,7 +36,8 @@ class TournamentSelection(GeneticStep):
         target_size: int,
         generation: int,
     ) -> Iterator[Individual]:
-        candidates = list(population)
+        all_candidates = list(population)  # the population may be a one-shot iterator
+        candidates = list(all_candidates)
         evaluator.evaluate(problem, candidates)
         for _ in range(target_size):
             candidates = [random.choice(candidates) for _ in range(self.tournament_size)]
@@ -46,7 +47,7 @@ class TournamentSelection(GeneticStep):
             if not self.with_replacement:
                 candidates.remove(winner)
                 if not candidates:
-                    candidates = list(population)
+                    candidates = list(all_candidates)
 
 
 class LexicaseSelection(GeneticStep):
